@@ -442,14 +442,15 @@ Lemma semseg_step_ok : forall o H W ds g ds',
   match o with
   | SPad th tw => geom_dims g (H, W) = (Z.max H th, Z.max W tw)
   | SCrop th tw _ => geom_dims g (H, W) = (Z.min H th, Z.min W tw)
-  | SRandResize nh nw | SResize nh nw => geom_dims g (H, W) = (nh, nw)
+  | SRandResize nh nw _ _ _ | SResize nh nw _ _ _ => geom_dims g (H, W) = (nh, nw)
   | SFlip _ | SOther => geom_dims g (H, W) = (H, W)
   end.
 Proof.
   intros o H W ds g ds' Wf HH HW D E. destruct o; cbn in E, Wf.
   - inversion E; subst. destruct (semseg_pad_params_ok th tw H W) as [P1 P2].
     cbn [geom_ok geom_dims]. rewrite P2. cbn [fst snd]. splits; auto; lia.
-  - inversion E; subst. cbn. splits; auto; lia.
+  - destruct (nn_okb k H nh my && nn_okb k W nw mx); [|discriminate].
+    inversion E; subst. cbn. splits; auto; lia.
   - inversion E; subst. destruct applied; cbn; splits; auto.
   - destruct (10 <? Z.of_nat redraws); [discriminate|].
     apply bind_ok in E. destruct E as ([p ds1] & G & E).
@@ -457,12 +458,13 @@ Proof.
     apply bind_ok in E. destruct E as ([p2 ds2] & L & E). inversion E; subst.
     eapply semseg_crop_loop_ok in L; eauto; try lia. destruct L as (L1 & L2 & L3).
     destruct p2 as [[[i j] h] w]. cbn in *. destruct L2 as [-> ->]. splits; auto; lia.
-  - inversion E; subst. cbn. splits; auto; lia.
+  - destruct (nn_okb k H nh my && nn_okb k W nw mx); [|discriminate].
+    inversion E; subst. cbn. splits; auto; lia.
   - inversion E; subst. cbn. splits; auto.
 Qed.
 
 Lemma apply_geom_dims : forall g im, (gh (apply_geom g im), gw (apply_geom g im)) = geom_dims g (gh im, gw im).
-Proof. intros [[[[l t] r] b]|[[[top lft] h] w]|nh nw| |] im; reflexivity. Qed.
+Proof. intros [[[[l t] r] b]|[[[top lft] h] w]|nh nw my mx| |] im; reflexivity. Qed.
 
 Lemma semseg_run_geoms_ok : forall ops x seg ds gs x' seg',
   Forall sop_wf ops -> 0 <= gh x -> 0 <= gw x -> draws_ok ds ->
@@ -482,29 +484,87 @@ Proof.
     + rewrite <- AD in P2. exact P2.
 Qed.
 
+(* ---- recorded nearest-neighbour index maps ---- *)
+Lemma nn_entries_spec : forall k n_in n_out m i0,
+  0 <= i0 -> nn_entries_okb k n_in n_out i0 m = true ->
+  forall j, (j < length m)%nat ->
+    let v := nth j m (-1) in let i := i0 + Z.of_nat j in
+    0 <= v /\ (v = nn_nominal k n_in n_out i \/ (v = nn_nominal k n_in n_out i - 1 /\ nn_tie k n_in n_out i = true)).
+Proof.
+  intros k n_in n_out. induction m as [|v m IH]; intros i0 H0 E j Hj; [cbn in Hj; lia|].
+  cbn [nn_entries_okb] in E. apply andb_true_iff in E. destruct E as [E E3].
+  apply andb_true_iff in E. destruct E as [E1 E2].
+  destruct j as [|j].
+  - cbn. rewrite Z.add_0_r. split; [lia|].
+    apply orb_true_iff in E2. destruct E2 as [E2|E2]; [left; lia|right].
+    apply andb_true_iff in E2. destruct E2 as [E2 E4]. split; [lia|exact E4].
+  - cbn [nth]. cbn in Hj. specialize (IH (i0 + 1) ltac:(lia) E3 j ltac:(lia)).
+    replace (i0 + Z.of_nat (S j)) with (i0 + 1 + Z.of_nat j) by lia. exact IH.
+Qed.
+
+Lemma nn_okb_sound : forall k n_in n_out m, nn_okb k n_in n_out m = true -> nn_ok k n_in n_out m.
+Proof.
+  intros k n_in n_out m E. unfold nn_okb in E. apply andb_true_iff in E. destruct E as [E1 E2].
+  apply Z.eqb_eq in E1. split; auto. intros i Hi. unfold nn_at.
+  destruct (i <? 0) eqn:E3; [lia|].
+  pose proof (nn_entries_spec k n_in n_out m 0 ltac:(lia) E2 (Z.to_nat i) ltac:(lia)) as S.
+  cbn zeta in S. rewrite Z2Nat.id in S by lia. rewrite Z.add_0_l in S. exact S.
+Qed.
+
+Lemma nn_nominal_range : forall k n_in n_out i, 0 < n_in -> 0 <= i < n_out ->
+  0 <= nn_nominal k n_in n_out i < n_in.
+Proof.
+  intros k n_in n_out i Pin Hi. destruct k; unfold nn_nominal.
+  - split; [apply Z.div_pos; nia | apply Z.div_lt_upper_bound; nia].
+  - split; [apply Z.div_pos; nia | apply Z.div_lt_upper_bound; nia].
+Qed.
+
+(* a map that satisfies the contract stays inside the source axis *)
+Lemma nn_ok_in_range : forall k n_in n_out m i, 0 < n_in -> nn_ok k n_in n_out m -> 0 <= i < n_out ->
+  0 <= nn_at m i < n_in.
+Proof.
+  intros k n_in n_out m i Pin [_ C] Hi. destruct (C i Hi) as [L [E|[E _]]];
+    pose proof (nn_nominal_range k n_in n_out i Pin Hi); lia.
+Qed.
+
 (* pixels shown after any sequence of pad / crop / resize / flip come from inside the input *)
 Lemma apply_geom_sources : forall H0 W0 g im,
-  match g with GResize _ _ => 0 < gh im /\ 0 < gw im | _ => True end ->
+  match g with GResize nh nw my mx =>
+    forall y x, 0 <= y < nh -> 0 <= x < nw -> 0 <= nn_at my y < gh im /\ 0 <= nn_at mx x < gw im | _ => True end ->
   sources_inside H0 W0 im -> sources_inside H0 W0 (apply_geom g im).
 Proof.
-  intros H0 W0 g im P S. destruct g as [[[[l t] r] b]|[[[top lft] h] w]|nh nw| |]; unfold sources_inside in *; cbn; intros y x I.
+  intros H0 W0 g im P S. destruct g as [[[[l t] r] b]|[[[top lft] h] w]|nh nw my mx| |]; unfold sources_inside in *; cbn; intros y x I.
   - destruct (inside (gh im) (gw im) (y - t) (x - l)) eqn:E; auto. apply S; auto.
   - destruct (inside (gh im) (gw im) (top + y) (lft + x)) eqn:E; auto. apply S; auto.
-  - apply S. unfold inside in *. destruct P as [Ph Pw].
+  - apply S. unfold inside in *.
     assert (0 <= y < nh /\ 0 <= x < nw) as [Hy Hx] by lia.
-    assert (0 <= y * gh im / nh) by (apply Z.div_pos; nia).
-    assert (y * gh im / nh < gh im) by (apply Z.div_lt_upper_bound; nia).
-    assert (0 <= x * gw im / nw) by (apply Z.div_pos; nia).
-    assert (x * gw im / nw < gw im) by (apply Z.div_lt_upper_bound; nia).
-    lia.
+    destruct (P y x Hy Hx). lia.
   - apply S. unfold inside in *. lia.
   - apply S; auto.
+Qed.
+
+(* a resize step that the model accepts carries in-range maps *)
+Lemma semseg_step_resize_maps : forall o H W ds nh nw my mx ds',
+  0 < H -> 0 < W -> semseg_step o H W ds = Ok (GResize nh nw my mx, ds') ->
+  forall y x, 0 <= y < nh -> 0 <= x < nw -> 0 <= nn_at my y < H /\ 0 <= nn_at mx x < W.
+Proof.
+  intros o H W ds nh nw my mx ds' PH PW E y x Hy Hx.
+  assert (exists k, nn_okb k H nh my && nn_okb k W nw mx = true) as [k K].
+  { destruct o; cbn in E; try discriminate.
+    - destruct (nn_okb k H nh0 my0 && nn_okb k W nw0 mx0) eqn:K; [|discriminate]. inversion E; subst. eauto.
+    - destruct applied; discriminate.
+    - destruct (10 <? Z.of_nat redraws); [discriminate|].
+      apply bind_ok in E. destruct E as ([p ds1] & _ & E). apply bind_ok in E. destruct E as ([p2 ds2] & _ & E). discriminate.
+    - destruct (nn_okb k H nh0 my0 && nn_okb k W nw0 mx0) eqn:K; [|discriminate]. inversion E; subst. eauto. }
+  apply andb_true_iff in K. destruct K as [K1 K2].
+  apply nn_okb_sound in K1. apply nn_okb_sound in K2.
+  split; eapply nn_ok_in_range; eauto.
 Qed.
 
 Definition sop_pos (o : sop) : Prop :=
   match o with
   | SPad th tw | SCrop th tw _ => 0 < th /\ 0 < tw
-  | SRandResize nh nw | SResize nh nw => 0 < nh /\ 0 < nw
+  | SRandResize nh nw _ _ _ | SResize nh nw _ _ _ => 0 < nh /\ 0 < nw
   | SFlip _ | SOther => True
   end.
 
@@ -536,7 +596,9 @@ Proof.
       rewrite <- AD in H. cbn in H. exact H. }
     eapply IH in R; eauto.
     + apply apply_geom_sources; auto. destruct g; auto.
-    + apply apply_geom_sources; auto. destruct g; auto. rewrite <- Eh, <- Ew. auto.
+      eapply semseg_step_resize_maps; eauto.
+    + apply apply_geom_sources; auto. destruct g; auto. rewrite <- Eh, <- Ew.
+      eapply semseg_step_resize_maps; eauto.
     + apply apply_geom_same. unfold same_geometry. auto.
 Qed.
 
@@ -742,4 +804,204 @@ Proof.
   intros l Hl. cbn in Hl.
   assert (l = 0 \/ l = 1 \/ l = 2 \/ l = 3) as HH by lia.
   destruct HH as [E|[E|[E|E]]]; subst l; cbn; auto.
+Qed.
+
+(* ====================================================================== *)
+(* additions (round 2)                                                     *)
+(* ====================================================================== *)
+
+(* ---------------- nearest resize of a pair ---------------- *)
+(* resizing image and mask with the same index maps keeps them aligned: at every output pixel both show the same
+   source pixel.  Holds for ANY pair of maps (no contract needed): alignment only needs the two calls to use the
+   same map, which is what "same library, same mode, same sizes" gives (checked per case: the maps measured for the
+   image call and for the mask call are compared). *)
+Lemma resize_same_geometry : forall nh nw my mx x seg,
+  same_geometry x seg ->
+  same_geometry (apply_geom (GResize nh nw my mx) x) (apply_geom (GResize nh nw my mx) seg) /\
+  forall a b, gsrc (apply_geom (GResize nh nw my mx) x) a b = gsrc (apply_geom (GResize nh nw my mx) seg) a b.
+Proof.
+  intros nh nw my mx x seg S. pose proof (apply_geom_same (GResize nh nw my mx) x seg S) as S'.
+  split; auto. destruct S' as (_ & _ & E). exact E.
+Qed.
+
+Lemma nn_okb_in_range : forall k n_in n_out m i, 0 < n_in -> nn_okb k n_in n_out m = true -> 0 <= i < n_out ->
+  0 <= nn_at m i < n_in.
+Proof.
+  intros k n_in n_out m i P E. apply nn_ok_in_range with (k := k) (n_out := n_out); auto. apply nn_okb_sound; auto.
+Qed.
+
+(* where the NOMINAL nearest maps sample, relative to the centre c = (i + 1/2) * n_in / n_out - 1/2 (in source pixel
+   coordinates, pixel k covering [k - 1/2, k + 1/2]) around which a bilinear / bicubic resize of the image interpolates.
+   Stated with everything multiplied by 2 * n_out:   2 n_out (m - c) = 2 n_out m - (2 i + 1) n_in + n_out.
+   PIL:   -1/2 < m - c <= 1/2            the mask shows the source pixel that contains the image's sampling centre;
+   torch: -1/2 - s/2 < m - c <= 1/2 - s/2  with s = n_in / n_out: torch's legacy NEAREST is anchored at the pixel
+          corner, so the mask lags the image by (s - 1) / 2 source pixels (= (1 - 1/s) / 2 < 1/2 OUTPUT pixels). *)
+Lemma nn_grid_pil : forall n_in n_out i, 0 < n_out ->
+  let m := nn_nominal NPil n_in n_out i in
+  - n_out < 2 * n_out * m - (2 * i + 1) * n_in + n_out <= n_out.
+Proof.
+  intros n_in n_out i Po m. unfold m, nn_nominal.
+  pose proof (Z.div_mod ((2 * i + 1) * n_in) (2 * n_out) ltac:(lia)).
+  pose proof (Z.mod_pos_bound ((2 * i + 1) * n_in) (2 * n_out) ltac:(lia)). nia.
+Qed.
+
+Lemma nn_grid_torch : forall n_in n_out i, 0 < n_out ->
+  let m := nn_nominal NTorch n_in n_out i in
+  - n_out - n_in < 2 * n_out * m - (2 * i + 1) * n_in + n_out <= n_out - n_in.
+Proof.
+  intros n_in n_out i Po m. unfold m, nn_nominal.
+  pose proof (Z.div_mod (i * n_in) n_out ltac:(lia)).
+  pose proof (Z.mod_pos_bound (i * n_in) n_out ltac:(lia)). nia.
+Qed.
+
+(* ---------------- two-crop overlap ---------------- *)
+Lemma overlap_parts_sym : forall p0 p1, overlap_parts p0 p1 = overlap_parts p1 p0.
+Proof.
+  intros [[[i0 j0] h0] w0] [[[i1 j1] h1] w1]. unfold overlap_parts, inter_ijkl.
+  rewrite (Z.min_comm (i0 + h0)), (Z.max_comm i0), (Z.min_comm (j0 + w0)), (Z.max_comm j0). f_equal. lia.
+Qed.
+
+(* intersection / union lies in [0, 1]; it is 1 exactly when the windows coincide (non-empty windows of equal size) *)
+Lemma overlap_parts_unit : forall i0 j0 i1 j1 h w inter union, 0 < h -> 0 < w ->
+  overlap_parts (i0, j0, h, w) (i1, j1, h, w) = (inter, union) ->
+  0 <= inter <= union /\ 0 < union /\ (inter = union <-> (i0 = i1 /\ j0 = j1)).
+Proof.
+  intros i0 j0 i1 j1 h w inter union Ph Pw E.
+  unfold overlap_parts, inter_ijkl in E. inversion E; subst; clear E.
+  set (a := Z.max 0 (Z.min (i0 + h) (i1 + h) - Z.max i0 i1)).
+  set (b := Z.max 0 (Z.min (j0 + w) (j1 + w) - Z.max j0 j1)).
+  assert (0 <= a <= h) by (unfold a; lia). assert (0 <= b <= w) by (unfold b; lia).
+  assert (a = h <-> i0 = i1) by (unfold a; lia). assert (b = w <-> j0 = j1) by (unfold b; lia).
+  clearbody a b. assert (0 <= a * b) by nia. assert (a * b <= h * w) by nia.
+  split; [lia|]. split; [nia|]. split.
+  - intro Eq. assert (a * b = h * w) by lia.
+    assert (a = h) by nia. assert (b = w) by nia. tauto.
+  - intros [E1 E2]. assert (a = h) by tauto. assert (b = w) by tauto. subst. lia.
+Qed.
+
+(* ---------------- multi crop: the windows cover the image ---------------- *)
+Lemma multicrop_covers : forall ch cw H W l,
+  0 < ch -> 0 < cw -> 0 < H -> 0 < W ->
+  multicrop_windows ch cw H W = Ok l ->
+  forall y x, 0 <= y < H -> 0 <= x < W ->
+    exists top lft, In (top, lft, ch, cw) l /\ top <= y < top + ch /\ lft <= x < lft + cw.
+Proof.
+  intros ch cw H W l Pch Pcw PH PW E y x Hy Hx. unfold multicrop_windows in E.
+  destruct ((ch mod 2 =? 0) && (cw mod 2 =? 0)) eqn:E2; cbn [negb] in E; [|discriminate].
+  destruct (ch =? 0) eqn:E3; [discriminate|].
+  destruct (H mod ch =? 0) eqn:E4; cbn [negb] in E; [|discriminate].
+  destruct (cw =? 0) eqn:E5; [discriminate|].
+  destruct (W mod cw =? 0) eqn:E6; cbn [negb] in E; [|discriminate].
+  apply Ok_inj in E. subst l.
+  assert (1 <= ch / 2 /\ 2 * (ch / 2) = ch) as [Oh Eh] by (zdm; lia).
+  assert (1 <= cw / 2 /\ 2 * (cw / 2) = cw) as [Ow Ew] by (zdm; lia).
+  set (oh := ch / 2) in *. set (ow := cw / 2) in *.
+  (* H = kh * ch, W = kw * cw *)
+  assert (exists kh, 1 <= kh /\ H = kh * ch) as (kh & Kh & EH).
+  { exists (H / ch). pose proof (Z.div_mod H ch ltac:(lia)). assert (H mod ch = 0) by lia.
+    assert (1 <= H / ch) by (destruct (Z_lt_le_dec (H / ch) 1); [nia|lia]). nia. }
+  assert (exists kw, 1 <= kw /\ W = kw * cw) as (kw & Kw & EW).
+  { exists (W / cw). pose proof (Z.div_mod W cw ltac:(lia)). assert (W mod cw = 0) by lia.
+    assert (1 <= W / cw) by (destruct (Z_lt_le_dec (W / cw) 1); [nia|lia]). nia. }
+  assert ((H - ch) / oh = 2 * kh - 2) as Rh.
+  { replace (H - ch) with ((2 * kh - 2) * oh) by nia. apply Z.div_mul. lia. }
+  assert ((W - cw) / ow = 2 * kw - 2) as Rw.
+  { replace (W - cw) with ((2 * kw - 2) * ow) by nia. apply Z.div_mul. lia. }
+  rewrite Rh, Rw.
+  (* row / column of the window *)
+  set (i := Z.min (y / oh) (2 * kh - 2)). set (j := Z.min (x / ow) (2 * kw - 2)).
+  assert (0 <= y / oh) by (apply Z.div_pos; lia). assert (0 <= x / ow) by (apply Z.div_pos; lia).
+  pose proof (Z.div_mod y oh ltac:(lia)). pose proof (Z.mod_pos_bound y oh ltac:(lia)).
+  pose proof (Z.div_mod x ow ltac:(lia)). pose proof (Z.mod_pos_bound x ow ltac:(lia)).
+  assert (0 <= i <= 2 * kh - 2) by (unfold i; lia). assert (0 <= j <= 2 * kw - 2) by (unfold j; lia).
+  exists (i * oh), (j * ow). split.
+  - apply in_flat_map. exists (Z.to_nat i). split.
+    + apply in_seq. lia.
+    + apply in_map_iff. exists (Z.to_nat j). split.
+      * rewrite !Z2Nat.id by lia. reflexivity.
+      * apply in_seq. lia.
+  - unfold i, j. split.
+    + destruct (Z_le_gt_dec (y / oh) (2 * kh - 2)); [rewrite Z.min_l by lia | rewrite Z.min_r by lia]; nia.
+    + destruct (Z_le_gt_dec (x / ow) (2 * kw - 2)); [rewrite Z.min_l by lia | rewrite Z.min_r by lia]; nia.
+Qed.
+
+(* ---------------- PatchwiseTransform ---------------- *)
+(* the composition patchify -> merge -> per-patch transform -> split -> unpatchify as an index map: output pixel
+   (y, x) is pixel (y mod ph, x mod pw) of the transform's result on patch l = (y / ph) * sw + x / pw, and that patch
+   is the ph x pw block of the input with top-left corner ((l / sw) * ph, (l mod sw) * pw) = (y / ph * ph, x / pw * pw) *)
+Lemma patchwise_index_map : forall A ph pw sw (f : Z -> p3 A -> p3 A) (t : t3 A) c y x,
+  0 < pw -> 0 <= x < sw * pw ->
+  let l := y / ph * sw + x / pw in
+  patchwise ph pw sw f t c y x =
+  f l (fun c' p q => t c' (y / ph * ph + p) (x / pw * pw + q)) c (y mod ph) (x mod pw).
+Proof.
+  intros A ph pw sw f t c y x Ppw Hx l.
+  unfold patchwise, unpatchify, split_seq, map_patches, merge_seq, patchify. fold l.
+  assert (0 <= x / pw < sw) as Hb.
+  { split; [apply Z.div_pos; lia | apply Z.div_lt_upper_bound; nia]. }
+  destruct (div_mul_add (y / ph) sw (x / pw) Hb) as [D M]. fold l in D, M. rewrite D, M. reflexivity.
+Qed.
+
+(* an identity per-patch transform gives the input back; a per-patch transform only sees its own patch *)
+Lemma patchwise_identity : forall A ph pw sw (t : t3 A) c y x,
+  0 < ph -> 0 < pw -> 0 <= x < sw * pw ->
+  patchwise ph pw sw (fun _ u => u) t c y x = t c y x.
+Proof.
+  intros A ph pw sw t c y x Pph Ppw Hx. rewrite patchwise_index_map by auto. cbn beta.
+  f_equal; zdm; lia.
+Qed.
+
+From Coq Require Import Qabs.
+Open Scope Z_scope.
+
+(* ---------------- spec-augment: the float32 product u * P stays below P ---------------- *)
+(* u = a float32 in [0, 1 - 2^-24] (np_random_as_tensor: torch.tensor(rng.random()), and 1.0 replaced by 1 - 1e-6),
+   P = mask_param, an integer 1 <= P <= 2^24 with 2^(e-1) < P <= 2^e, v = fl32(u * P).
+   pfl = P - 2^e / 2^24 is the float32 just below P.  Round-to-nearest means v is at least as close to the exact
+   product as pfl is.  Then v < P, hence value.long() <= P - 1 and the assert mask_end - mask_start < mask_param of
+   _mask_along_axis never fires. *)
+Lemma fl32_product_below_param : forall (P twoe : Z) (u v : Q),
+  (1 <= P)%Z -> (P <= twoe)%Z -> (twoe < 2 * P)%Z ->
+  (0 <= u)%Q -> (u <= 1 - 1 / inject_Z (2 ^ 24))%Q ->
+  (let x := u * inject_Z P in let pfl := inject_Z P - inject_Z twoe / inject_Z (2 ^ 24) in
+   Qabs (v - x) <= Qabs (pfl - x))%Q ->
+  (v < inject_Z P)%Q.
+Proof.
+  intros P twoe u v P1 Ple Plt U0 U1 N. cbn zeta in N.
+  set (PQ := inject_Z P) in *. set (TQ := inject_Z twoe) in *.
+  assert (1 <= PQ)%Q as HP by (unfold PQ; change 1%Q with (inject_Z 1); rewrite <- Zle_Qle; lia).
+  assert (PQ <= TQ)%Q as HT1 by (unfold PQ, TQ; rewrite <- Zle_Qle; lia).
+  assert (TQ < 2 * PQ)%Q as HT2.
+  { unfold PQ, TQ. change 2%Q with (inject_Z 2). rewrite <- inject_Z_mult. rewrite <- Zlt_Qlt. lia. }
+  change (inject_Z (2 ^ 24)) with (16777216 # 1)%Q in *.
+  set (x := (u * PQ)%Q) in *.
+  assert (x <= PQ - PQ / (16777216 # 1))%Q as Hx.
+  { unfold x. setoid_replace (PQ - PQ / (16777216 # 1))%Q with ((1 - 1 / (16777216 # 1)) * PQ)%Q by field.
+    apply Qmult_le_compat_r; [exact U1 | lra]. }
+  assert (0 <= x)%Q as Hx0 by (unfold x; apply Qmult_le_0_compat; lra).
+  set (a := (PQ / (16777216 # 1))%Q) in *. set (b := (TQ / (16777216 # 1))%Q) in *.
+  assert (a <= b)%Q as Hab by (unfold a, b; apply Qmult_le_compat_r; [exact HT1 | discriminate]).
+  assert (b < 2 * a)%Q as Hba.
+  { unfold a, b. setoid_replace (2 * (PQ / (16777216 # 1)))%Q with ((2 * PQ) / (16777216 # 1))%Q by field.
+    apply Qmult_lt_compat_r; [reflexivity | exact HT2]. }
+  assert (0 < a)%Q as Ha by (unfold a; apply Qlt_shift_div_l; [reflexivity | lra]).
+  revert N. apply Qabs_case; intros S1; apply Qabs_case; intros S2 N; lra.
+Qed.
+
+Lemma q_trunc_below : forall (v : Q) (P : Z), (0 <= v)%Q -> (v < inject_Z P)%Q -> q_trunc v < P.
+Proof.
+  intros v P V0 V1. destruct (q_trunc_nonneg v V0) as [T0 T1].
+  assert (inject_Z (q_trunc v) < inject_Z P)%Q as L by lra. rewrite <- Zlt_Qlt in L. exact L.
+Qed.
+
+(* with value < P the assertion of _mask_along_axis holds: the model never answers Reject 3 *)
+Lemma mask_axis_assert_holds : forall P value minv,
+  1 <= P -> (0 <= value)%Q -> (value < inject_Z P)%Q ->
+  exists s e, mask_axis P value minv = Ok (Some (s, e)) /\ 0 <= e - s < P.
+Proof.
+  intros P value minv P1 V0 V1. unfold mask_axis.
+  destruct (P <? 1) eqn:EP; [lia|].
+  pose proof (q_trunc_below value P V0 V1) as T. destruct (q_trunc_nonneg value V0) as [T0 _].
+  destruct (q_trunc minv + q_trunc value - q_trunc minv <? P) eqn:EL; [|lia].
+  eexists. eexists. split; [reflexivity|]. lia.
 Qed.
